@@ -198,7 +198,7 @@ Theorem C14_replace_fill_end_refuted : refutes w_replace_end = true /\ refutes w
 Proof. exact replace_fill_end_refuted. Qed.
 Print Assumptions C14_replace_fill_end_refuted.
 Theorem C14_nil_sequence_refuted :
-  refutes w_subseq_nil = true /\ refutes w_every_nil = true /\ refutes w_mapcar_nil = true /\ refutes w_subsetp_nil = true /\
+  refutes w_subseq_nil = true /\ refutes w_every_nil = true /\ refutes w_subsetp_nil = true /\
   refutes w_reduce_nil = true /\ refutes w_map_nil = true /\ refutes w_merge_nil = true.
 Proof. exact nil_sequence_refuted. Qed.
 Print Assumptions C14_nil_sequence_refuted.
